@@ -569,6 +569,78 @@ def stream_merge(ctx, n):
         ctx.tie("T2 merge() vs Model.Merge.merge_all")
 
 
+def t1_piece_lookup(ctx):
+    """T1: where the readers of index files (.pvtu and .pvd) take a named piece from, tabulated over (name absolute?, a file of
+    that name in the working directory?, a file of that name next to the index file?) by reading marked files, and proved equal
+    to Model.Paths.resolve_fixed in the kernel"""
+    from fieldcompare.io import read_field_data, read
+    root = os.path.join(str(ctx.workdir), "lookup")
+    rows = []
+    for kind in ("pvtu", "pvd"):
+        for is_abs in (False, True):
+            for in_cwd in (False, True):
+                for next_to in (False, True):
+                    if is_abs and not next_to:
+                        continue          # (an absolute name is the file next to the index here; it has to exist to be read at all)
+                    if not is_abs and not in_cwd and not next_to:
+                        continue          # nothing to read
+                    d = os.path.join(root, f"{kind}_{int(is_abs)}{int(in_cwd)}{int(next_to)}")
+                    idx_dir, cwd_dir = os.path.join(d, "index_dir"), os.path.join(d, "cwd")
+                    os.makedirs(idx_dir)
+                    os.makedirs(cwd_dir)
+
+                    def piece(path, marker):
+                        V.write_vtu(path, [[0.0, 0.0, 0.0], [1.0, 0.0, 0.0], [0.0, 1.0, 0.0]], [(5, [0, 1, 2])],
+                                    [("m", "Float64", 1, [marker, marker, marker])], [], V.Cfg("ascii"))
+                    if next_to:
+                        piece(os.path.join(idx_dir, "piece.vtu"), 1.0)
+                    if in_cwd:
+                        piece(os.path.join(cwd_dir, "piece.vtu"), 2.0)
+                    name = os.path.join(idx_dir, "piece.vtu") if is_abs else "piece.vtu"
+                    if kind == "pvtu":
+                        V.write_pvtu(os.path.join(idx_dir, "all.pvtu"), [name], [("m", "Float64", 1, None)], [])
+                    else:
+                        V.write_pvd(os.path.join(idx_dir, "all.pvd"), [name])
+                    old = os.getcwd()
+                    os.chdir(cwd_dir)
+                    try:
+                        with warnings.catch_warnings():
+                            warnings.simplefilter("ignore")
+                            if kind == "pvtu":
+                                fd = read_field_data(os.path.join(idx_dir, "all.pvtu"))
+                            else:
+                                fd = next(iter(read(os.path.join(idx_dir, "all.pvd"))))
+                        marker = float({f.name: f.values for f in fd}["m"][0])
+                    except Exception as e:  # noqa: BLE001
+                        marker = None
+                        ctx.notes.append(f"piece lookup probe {kind} abs={is_abs} cwd={in_cwd} next={next_to}: {type(e).__name__}: {e}")
+                    finally:
+                        os.chdir(old)
+                    # which file was read: marker 1 = the file next to the index, marker 2 = the namesake in the working directory.
+                    # an absolute name IS the file next to the index here, so 'as given' and 'next to the index' coincide (marker 1)
+                    got = {1.0: "NextToIndex", 2.0: "AsGiven"}.get(marker)
+                    if is_abs:
+                        got = "AsGiven" if marker == 1.0 else None
+                    rows.append((kind, is_abs, in_cwd, next_to, got))
+    shutil.rmtree(root, ignore_errors=True)
+    body = ["From Coq Require Import Bool List.", "From FC Require Import Model.Paths.", "Import ListNotations.",
+            "Definition observed : list (bool * bool * bool * option lookup) := ["]
+    body.append(";\n".join(f"  ({lib.cbool(a)}, {lib.cbool(c)}, {lib.cbool(n)}, {'Some ' + g if g else 'None'})" for _, a, c, n, g in rows))
+    body.append("].")
+    body.append("Definition lookup_eqb (a b : lookup) : bool := match a, b with AsGiven, AsGiven | NextToIndex, NextToIndex => true | _, _ => false end.")
+    body.append("Lemma piece_lookup_table : forallb (fun r => match r with (a, c, n, Some g) => lookup_eqb (resolve_fixed a c n) g | _ => false end) observed = true.")
+    body.append("Proof. vm_compute. reflexivity. Qed.")
+    ok = ctx.table_lemma("t1_piece_lookup", "\n".join(body))
+    ctx.count("T1 piece lookup rows", len(rows))
+    if not ok:
+        for kind, a, c, n, g in rows:
+            want = "NextToIndex" if (not a and n) else "AsGiven"
+            if g != want:
+                ctx.violation("E4", f"{kind}: a piece named {'absolutely' if a else 'relatively'} with a namesake in the working directory: "
+                                    f"{c}, a file next to the index file: {n} is read from {g or 'nowhere (error)'}; expected {want}",
+                              {"piece_lookup": {"kind": kind, "absolute": a, "in_cwd": c, "next_to_index": n}})
+
+
 def stream_merge_partial(ctx, n):
     """merge() of pieces whose point-field sets differ (a field missing on one side is zero-filled there): model against
     implementation only — the statement's "unpartitioned data set" is not defined for such pieces"""
@@ -1346,6 +1418,7 @@ def _run(ctx):
     ctx.prove()
     quick = ctx.tier == "quick"
     corpus_stream(ctx)
+    t1_piece_lookup(ctx)
     stream_merge(ctx, 800 if quick else 30000)
     stream_merge_partial(ctx, 60 if ctx.tier == 'quick' else 1500)
     # rotated meshes (columns equal only up to rounding noise) and distinct points closer than the tolerance: shared points
